@@ -334,4 +334,48 @@ example : InI128 (-(2:Int)^127) ∧ divmod_TD (-7) 2 = .ok (-4, 1) ∧ add_TD ((
   · rw [divmod_exact _ _ (by unfold InI128; omega)]; rfl
   · rw [add_exact]; rfl
 
+/-! ### Mixed divmod: one divisor for quotient and remainder -/
+
+open Model.Mixed Model.Conv
+
+theorem init_check_checked (t : Int) : init_check t = checked t := by
+  unfold checked InI128; py_norm; py_cases
+
+theorem conv_divmod_identity (conv : Except PyErr Int) (a q r : Int)
+    (h : (conv.bind fun b => (divmod_TD a b).map fun p => V.pair p.1 p.2) = .ok (.pair q r))
+    (hc : ∀ b, conv = .ok b → InI128 b) :
+    ∃ b, conv = .ok b ∧ a = q * b + r ∧ ((0 < b → 0 ≤ r ∧ r < b) ∧ (b < 0 → b < r ∧ r ≤ 0)) := by
+  cases hb : conv with
+  | error e => simp [hb, Except.bind] at h
+  | ok b =>
+    simp only [hb, Except.bind] at h
+    cases hd : divmod_TD a b with
+    | error e => simp [hd, Except.map] at h
+    | ok p =>
+      obtain ⟨p1, p2⟩ := p
+      simp only [hd, Except.map, Except.ok.injEq, V.pair.injEq] at h
+      obtain ⟨h1, h2⟩ := h
+      subst h1 h2
+      exact ⟨b, rfl, divmod_identity a b _ _ (hc b hb) hd⟩
+
+/-- **Mixed divmod**: with a hightime or datetime divisor, quotient and remainder belong to one and the same divisor — the
+    divisor's conversion to ticks: dividend = quotient·b + remainder exactly, remainder of b's sign and smaller than b. -/
+theorem mixed_divmod_identity_ht (a y q r : Int) (h : tdOp .divmod a (.htTd y) = some (.ok (.pair q r))) :
+    ∃ b, btOfHt y = .ok b ∧ a = q * b + r ∧ ((0 < b → 0 ≤ r ∧ r < b) ∧ (b < 0 → b < r ∧ r ≤ 0)) := by
+  simp only [tdOp, Option.some.injEq] at h
+  refine conv_divmod_identity _ a q r h (fun b hb => ?_)
+  simp only [btOfHt, init_check_checked, checked] at hb
+  split at hb
+  · cases hb; assumption
+  · cases hb
+
+theorem mixed_divmod_identity_dt (a u q r : Int) (h : tdOp .divmod a (.dtTd u) = some (.ok (.pair q r))) :
+    ∃ b, btOfDt u = .ok b ∧ a = q * b + r ∧ ((0 < b → 0 ≤ r ∧ r < b) ∧ (b < 0 → b < r ∧ r ≤ 0)) := by
+  simp only [tdOp, Option.some.injEq] at h
+  refine conv_divmod_identity _ a q r h (fun b hb => ?_)
+  simp only [btOfDt, init_check_checked, checked] at hb
+  split at hb
+  · cases hb; assumption
+  · cases hb
+
 end Props.C03
